@@ -29,15 +29,16 @@ def gen_T12():
     bl = [n for n in ifs if ast.unparse(n.test) == 'minisix.PY3' and len(n.body) == 1 and len(n.orelse) == 1
           and ast.unparse(n.body[0]) == 'byteLength = lambda x: len(x.encode())' and ast.unparse(n.orelse[0]) == 'byteLength = len']
     need(len(bl) == 1, 'reply: definition of byteLength changed')
-    rc = [n for n in ifs if ast.unparse(n.test) == 'self.private or self.to or msg.channel' and len(n.body) == 1
-          and len(n.orelse) == 1 and ast.unparse(n.body[0]) == 'recipient = target' and ast.unparse(n.orelse[0]) == 'recipient = msg.nick']
-    need(len(rc) == 1, 'reply: choice of the recipient changed')
+    rc = [n for n in ast.walk(reply) if isinstance(n, ast.Assign) and len(n.targets) == 1
+          and ast.unparse(n.targets[0]) == 'recipient']
+    need(len(rc) == 1 and ast.unparse(rc[0].value) == "_makeReply(self, msg, 'x', **replyArgs).args[0]",
+         'reply: choice of the recipient changed')
     fixed = len(':') + len(' PRIVMSG ') + len(' :') + len('\r\n')
     augs = [n for n in ast.walk(reply) if isinstance(n, ast.AugAssign) and isinstance(n.target, ast.Name)
             and n.target.id == 'allowedLength']
     need(len(augs) == 2 and all(isinstance(a.op, ast.Sub) for a in augs), 'reply: expected two `allowedLength -=`')
     a_nick, a_more = sorted(augs, key=lambda a: a.lineno)
-    need(ast.unparse(a_nick.value) == "byteLength(msg.nick) + len(': ')", 'reply: nick reserve changed: ' + ast.unparse(a_nick.value))
+    need(ast.unparse(a_nick.value) == "byteLength(self.to or msg.nick) + len(': ')", 'reply: nick reserve changed: ' + ast.unparse(a_nick.value))
     need(ast.unparse(a_more.value) == "len(_('(XX more messages)')) + 3", 'reply: more reserve changed: ' + ast.unparse(a_more.value))
     reserve = len('(XX more messages)') + 3
     strs = _consts(reply, str)
